@@ -37,6 +37,7 @@ import (
 	"github.com/mimiro-io/datahub/internal/server"
 	ds "github.com/mimiro-io/datahub/internal/service/dataset"
 	"github.com/mimiro-io/datahub/internal/service/types"
+	"github.com/mimiro-io/datahub/internal/verifhook"
 )
 
 type datasetHandler struct {
@@ -821,7 +822,9 @@ func (handler *datasetHandler) processEntities(
 		}
 	}
 
+	verifhook.Point(handler.store, "http.store.afterSyncCheck")
 	batchSize := 10
+	batchSize = verifhook.Knob("web.batchSize", batchSize)
 	entities := make([]*server.Entity, 0)
 	esp := server.NewEntityStreamParser(handler.store)
 	count := 0
@@ -836,6 +839,7 @@ func (handler *datasetHandler) processEntities(
 			}
 			count = 0
 			entities = make([]*server.Entity, 0)
+			verifhook.Point(handler.store, "http.store.betweenBatches")
 		}
 		return nil
 	})
@@ -850,6 +854,7 @@ func (handler *datasetHandler) processEntities(
 		}
 	}
 
+	verifhook.Point(handler.store, "http.store.beforeComplete")
 	if fullSyncEnd {
 		if err := dataset.ReleaseFullSyncLease(fullSyncID); err != nil {
 			return echo.NewHTTPError(http.StatusGone, server.HTTPGenericErr(err).Error())
